@@ -349,10 +349,42 @@ def build_objs(ant):
     return _mk(ant, ant['f'], gs, media=[ideal_ground] if ant.get('ground') else None)
 
 
+SCALED = dict(on=True, built=0)
+SCALE_FACTORS = [(0.3048,), (2.0,), (0.5, 4.0), (3.0, 0.25), (39.37,)]
+
+
+def build_scaled(ant, media):
+    """the same structure written in another unit and brought to metres by scaling the whole structure through the API
+    (`Geo_Container.scale`, what `--geo-scale` does), once or twice: a model with a transformation history.  Untapered
+    straight wires only (taper limits are lengths that the scaling does not touch)."""
+    import hashlib, json
+    from mininec.mininec import Wire, Geo_Container, ideal_ground
+    h = int(hashlib.sha1(json.dumps(ant, sort_keys=True, default=str).encode()).hexdigest()[8:16], 16)
+    facs = SCALE_FACTORS[(h // 4) % len(SCALE_FACTORS)]
+    tot = 1.0
+    for f_ in facs:
+        tot *= f_
+    geo = Geo_Container()
+    for w in ant['wires']:
+        geo.append(Wire(w['nseg'], *[float(x) / tot for x in w['p0']], *[float(x) / tot for x in w['p1']], w['r'] / tot))
+    geo.compute_tags()
+    for f_ in facs:
+        geo.scale(f_)
+    if media is None:
+        media = [ideal_ground] if ant['ground'] else None
+    SCALED['built'] += 1
+    return _mk(ant, ant['f'], geo, media=media)
+
+
 def build(ant, media=None):
     from mininec.mininec import Mininec, Wire, ideal_ground
     if 'objs' in ant:
         return build_objs(ant)
+    if SCALED['on'] and not ant.get('fresh') and not ant.get('noscale') and not any(w.get('segtype') for w in ant['wires']):
+        import hashlib, json
+        h = int(hashlib.sha1(json.dumps(ant, sort_keys=True, default=str).encode()).hexdigest()[8:16], 16)
+        if h % 4 == 1:
+            return build_scaled(ant, media)
     ws = []
     for w in ant['wires']:
         o = Wire(w['nseg'], *w['p0'], *w['p1'], w['r'])
